@@ -23,6 +23,10 @@ pub enum Pat {
     Runs(u32),
     /// Only the first and the last bit set.
     Ends,
+    /// Exactly one bit set (in the middle).
+    Single,
+    /// Exactly one bit clear (in the middle).
+    AllButOne,
 }
 
 #[derive(Clone, Debug, Serialize, Deserialize, PartialEq, Eq)]
@@ -82,9 +86,10 @@ impl Content {
                     value = !value;
                 }
             },
-            Pat::Ends => {
+            Pat::Ends | Pat::Single => {
                 out.resize(n, 0);
             },
+            Pat::AllButOne => out.resize(n, u64::MAX),
         }
         out
     }
@@ -104,6 +109,10 @@ impl Content {
                 let last = self.len - 1;
                 w[last / 64] |= 1u64 << (last % 64);
             }
+        }
+        if self.len > 0 {
+            let mid = self.len / 2;
+            match self.pat { Pat::Single => w[mid / 64] |= 1u64 << (mid % 64), Pat::AllButOne => w[mid / 64] &= !(1u64 << (mid % 64)), _ => {} }
         }
         if self.len % 64 != 0 {
             w[n - 1] &= (1u64 << (self.len % 64)) - 1;
@@ -170,7 +179,7 @@ impl Content {
             6 => Pat::Density(*rng.pick(&[1u16, 5, 20, 100, 500, 900, 990, 999])),
             7 => Pat::Density(rng.range(1, 999) as u16),
             8 => Pat::Runs(*rng.pick(&[1u32, 2, 7, 8, 50, 600, 5000])),
-            9 => Pat::Ends,
+            9 => *rng.pick(&[Pat::Ends, Pat::Ends, Pat::Single, Pat::AllButOne]),
             _ => Pat::Random,
         };
         Content { len, pat, salt: rng.next() & 0xFFFF_FFFF }
